@@ -138,9 +138,10 @@ def check(ctx, case):
 	if case.get('cores'):
 		args += ['-c', case['cores']]
 	if case['chan'] == 'files':
-		args += [g['path'] for g in gs]
+		paths = [(g['link'] if case.get('links') else g['path']) for g in gs]      # links: staged inputs, labelled by the path given
+		args += paths
 		from gambit.cli.common import get_file_id
-		labels = [get_file_id(str(g['path'])) for g in gs]
+		labels = [get_file_id(str(p)) for p in paths]
 	elif case['chan'] == 'list':
 		args += ['-l', w.listfile(gs, 'tl.txt'), '--ldir', w.qdir]
 		from gambit.cli.common import get_file_id
@@ -166,7 +167,10 @@ def check(ctx, case):
 	lens = []
 	toks = []
 	for nd in nodes:
-		ln = Fraction(nd['len']) if nd['len'] not in (None, '') else Fraction(0)
+		try:
+			ln = Fraction(nd['len']) if nd['len'] not in (None, '') else Fraction(0)
+		except ValueError:
+			return [], [f'output is not valid Newick: branch length {nd["len"]!r} of node {nd["name"]!r} is not a number: {so[:200]!r}']
 		lens.append(ln)
 	den = 1
 	for x in lens + [v for row in D for v in row]:
@@ -245,7 +249,7 @@ def run(ctx):
 			ids = None
 			if chan == 'sigs':
 				ids = [rng.choice(['s', "it's", 'a b', 'x(1)', 'semi;colon', 'com,ma', 'q"uote', 'ü', 'colon:x']) + f'_{i}' for i in range(len(g))]
-			sub({'kind': 'tree', 'g': g, 'chan': chan, 'ids': ids, 'explicit': rng.random() < 0.7, 'cores': rng.choice([None, 1, 3])}, 'tree')
+			sub({'kind': 'tree', 'g': g, 'chan': chan, 'ids': ids, 'explicit': rng.random() < 0.7, 'cores': rng.choice([None, 1, 3]), 'links': rng.random() < 0.3}, 'tree')
 	finally:
 		if _w is not None:
 			_w.cleanup()
